@@ -1,5 +1,12 @@
-pub fn lcm(iter: impl Iterator<Item = usize>) -> usize {
-    iter.fold(1, |acc, x| acc * x / gcd(acc, x))
+/// Returns `None` if the least common multiple does not fit in a `usize`
+pub fn lcm(mut iter: impl Iterator<Item = usize>) -> Option<usize> {
+    iter.try_fold(1usize, |acc, x| {
+        if acc == 0 || x == 0 {
+            Some(0)
+        } else {
+            (acc / gcd(acc, x)).checked_mul(x)
+        }
+    })
 }
 
 pub fn gcd(mut a: usize, mut b: usize) -> usize {
